@@ -18,7 +18,7 @@ runner.setup_imports()
 import job_shop_lib  # noqa: E402
 
 src = os.path.dirname(job_shop_lib.__file__)
-cov = coverage.Coverage(source=[src], data_file=None)
+cov = coverage.Coverage(source=[src], data_file=None, branch=True)
 props = sys.argv[2].split(",") if len(sys.argv) > 2 else ["C%02d" % i for i in range(1, 21) if i != 15]
 # modules were imported before coverage started: only executed function bodies matter here
 cov.start()
@@ -51,5 +51,6 @@ for f in sorted(data.measured_files()):
                 start = body0.end_lineno + 1
             inside.update(range(start, node.end_lineno + 1))
     miss = [ln for ln in missing if ln in inside]
-    if miss:
-        print(f"{os.path.relpath(f, src)}: {miss}")
+    arcs = [(a, b) for a, b in sorted(cov._analyze(f).arcs_missing()) if a in inside and a not in missing and b > 0 and (b in inside)]
+    if miss or arcs:
+        print(f"{os.path.relpath(f, src)}: lines {miss} branches {arcs}")
